@@ -39,6 +39,9 @@ E(k, n, a, v, d) == [k |-> k, n |-> n, a |-> a, v |-> v, d |-> d]
 Ref(key)     == E("ref", key, <<>>, 0, 1)
 Lit(i)       == E("lit", "", <<>>, i, 1)
 RealL(n, d)  == E("real", "", <<>>, n, d)             \* the literal n/d, d in {2, 4, 10}
+(* a Real literal given by its decimal spelling (long mantissas, large and tiny magnitudes): its value is the exact
+   decimal; TLC only carries the text, the binding compares the emitted text with it as exact rationals *)
+DecL(text)   == E("dec", text, <<>>, 0, 1)
 BoolL(b)     == E("bool", "", <<>>, IF b THEN 1 ELSE 0, 1)
 TimeE        == E("time", "", <<>>, 0, 1)
 Der(key)     == E("der", "", <<Ref(key)>>, 0, 1)
@@ -48,7 +51,7 @@ Call(f, as)  == E("call", f, as, 0, 1)
 Hole         == E("hole", "", <<>>, 0, 1)
 NoE          == E("none", "", <<>>, 0, 1)
 
-IsLiteral(e) == e.k \in {"lit", "real", "bool"}
+IsLiteral(e) == e.k \in {"lit", "real", "bool", "dec"}
 
 (* variable: type, prefixes in source order (flow, variability, causality), start / value expressions (NoE when
    absent), fixed in {"none","true","false"} *)
@@ -86,6 +89,7 @@ ExprXml(e) ==
       [] e.k = "time" -> X("local", A1("name", "time"), NoNum, <<>>)
       [] e.k = "lit"  -> X("real", <<>>, <<e.v, 1>>, <<>>)
       [] e.k = "real" -> X("real", <<>>, <<e.v, e.d>>, <<>>)
+      [] e.k = "dec"  -> X("real", A1("dec", e.n), NoNum, <<>>)
       [] e.k = "bool" -> X("boolean", <<>>, <<e.v, 1>>, <<>>)       \* <true/>, <false/> or value="True"
       [] e.k = "der"  -> X("operator", A1("name", "der"), NoNum, <<ExprXml(e.a[1])>>)
       [] e.k \in {"un", "bin", "call"} ->
@@ -138,7 +142,8 @@ AttrOf(x, k) == LET i == CHOOSE i \in DOMAIN x.attrs : x.attrs[i][1] = k IN x.at
 RECURSIVE ExprOf(_)
 ExprOf(x) ==
     CASE x.tag = "local"   -> IF AttrOf(x, "name") = "time" THEN TimeE ELSE Ref(AttrOf(x, "name"))
-      [] x.tag = "real"    -> IF x.num[2] = 1 THEN Lit(x.num[1]) ELSE RealL(x.num[1], x.num[2])
+      [] x.tag = "real"    -> IF x.attrs # <<>> THEN DecL(AttrOf(x, "dec"))
+                              ELSE IF x.num[2] = 1 THEN Lit(x.num[1]) ELSE RealL(x.num[1], x.num[2])
       [] x.tag = "boolean" -> E("bool", "", <<>>, x.num[1], 1)
       [] x.tag \in {"operator", "apply"} ->
             LET op == IF x.tag = "operator" THEN AttrOf(x, "name") ELSE AttrOf(x, "builtin")
@@ -198,6 +203,7 @@ BuildExpr(h, e) ==
       [] e.k = "time" -> NewElem(h, "local", A1("name", "time"), NoNum, <<>>)
       [] e.k = "lit"  -> NewElem(h, "real", <<>>, <<e.v, 1>>, <<>>)
       [] e.k = "real" -> NewElem(h, "real", <<>>, <<e.v, e.d>>, <<>>)
+      [] e.k = "dec"  -> NewElem(h, "real", A1("dec", e.n), NoNum, <<>>)
       [] e.k = "bool" -> NewElem(h, "boolean", <<>>, <<e.v, 1>>, <<>>)
       [] OTHER ->
             LET r == BuildArgs(h, e.a, <<>>)
@@ -329,6 +335,13 @@ Comp2Progs(types) ==
     {Prog("comp2", <<KVar, Var("v", t, pre, st, va, "none"), RealV("z")>>, <<Eq(Ref("z"), Ref("k"))>>) :
         t \in types, pre \in Pres2, st \in {NoE, Lit(3)}, va \in {NoE, Lit(4)}}
 
+(* long / large / tiny Real literals as start, as value of a constant and a parameter, and as operands *)
+DecTexts == {"3.14159265358979", "101325.25", "6.62607015e-34", "8.8541878128e-12", "1.0000000000001", "299792458.0",
+             "0.000123456789012", "1e-05", "6.02214076e+23"}
+DecProgs ==
+    {Prog("declit", <<Var("h", "Real", <<"constant">>, NoE, DecL(t), "none"), Var("g", "Real", <<"parameter">>, DecL(t), DecL(t), "none"),
+                      Var("v", "Real", <<>>, DecL(t), NoE, "none"), RealV("x"), RealV("w")>>,
+          <<Eq(Ref("w"), Bin("*", DecL(t), Ref("x"))), Eq(Ref("v"), Bin("+", Ref("x"), Un("-", DecL(t)))), Eq(Ref("x"), DecL(t))>>) : t \in DecTexts}
 WhenVars == <<RealV("x"), Var("d", "Real", <<"discrete">>, NoE, NoE, "none"), Var("e", "Real", <<"discrete">>, NoE, NoE, "none")>>
 WhenProgs ==
     {Prog("when", WhenVars, <<Eq(Der("x"), Lit(1)), When(Bin(">", Ref("x"), Lit(2)), th, ew)>>) :
@@ -339,11 +352,11 @@ WhenProgs ==
 Programs ==
     CASE Family = "quick" ->
             ExprProgs(S2({"sin"}, {"atan2"}), PalA) \cup ExprProgs(S1({"sin", "abs"}, {"atan2", "max"}), PalB)
-            \cup BoolProgs \cup {p \in CompProgs({"none"}) : CompOK(p)} \cup TwoDecl \cup WhenProgs \cup Comp2Progs({"Real"})
+            \cup BoolProgs \cup {p \in CompProgs({"none"}) : CompOK(p)} \cup TwoDecl \cup WhenProgs \cup Comp2Progs({"Real"}) \cup DecProgs
       [] Family = "thorough" ->
             ExprProgs(S2({"sin", "abs"}, {"atan2"}), PalA) \cup ExprProgs(S2({"sin"}, {"atan2"}), PalB)
             \cup BoolProgs \cup {p \in CompProgs({"none", "true", "false"}) : CompOK(p)} \cup TwoDecl \cup WhenProgs
-            \cup Comp2Progs({"Real", "Integer"})
+            \cup Comp2Progs({"Real", "Integer"}) \cup DecProgs
       [] Family = "cex" ->
             ExprProgs(S1({"sin"}, {"atan2"}), PalA) \cup TwoDecl \cup WhenProgs
             \cup {p \in CompProgs({"none"}) : CompOK(p) /\ p.vars[2].type = "Real" /\ p.vars[2].pres \in {<<>>, <<"parameter">>}}
@@ -459,6 +472,7 @@ Tags(p) ==
     {p.fam}
     \cup (IF \E i \in DOMAIN p.vars : Len(p.vars[i].pres) > 1 THEN {"two-prefixes"} ELSE {})
     \cup (IF \E i \in DOMAIN p.vars : HasPre(p.vars[i], "flow") THEN {"flow"} ELSE {})
+    \cup (IF p.fam = "declit" THEN {"decimal-literal"} ELSE {})
     \cup (IF \E q \in DOMAIN FlatEqs(p) : FlatEqs(p)[q].k = "decl" THEN {"decl-eq"} ELSE {})
     \cup (IF \E q \in DOMAIN p.eqs : p.eqs[q].k = "when" /\ p.eqs[q].elsew # <<>> THEN {"elsewhen"} ELSE {})
     \cup (IF \E q \in DOMAIN p.eqs : p.eqs[q].k = "when" THEN {"when"} ELSE {})
